@@ -103,7 +103,9 @@ namespace cppcms {
 			char *allocate_space(size_t size)
 			{
 				if(size * 2 > page_size_) {
-					page *p=(page *)malloc(size + sizeof(page));
+					// clear() keeps the last page of the chain, which may be this one, and reuses
+					// it as an ordinary page: it must not be smaller than one
+					page *p=(page *)malloc((size < page_size_ ? page_size_ : size) + sizeof(page));
 					if(!p)
 						throw std::bad_alloc();
 					p->next = pages_->next;
